@@ -179,6 +179,7 @@ v("bd-dense-inverse-in-inherited-dtype-buffer", B, """            with np.errsta
         if sparse.issparse(Y):""", ["C16", "C01"], "after seed C16-r5")
 v("bd-derivative-reads-the-memo", B, "        previous_index = list(index)\n        previous_index[symbol_number] -= 1\n",
   "        previous_index = list(index)\n        previous_index[symbol_number] -= 1\n        if tuple(previous_index) not in operator_derivatives._data:\n            pass\n", ["C10", "C12"], "after seed C10-r5")
+v("bd-subspace-positions-by-unstable-argsort", B, "        eigvecs[:, np.compress(subspace_indices == block, np.arange(dim))]", "        eigvecs[:, np.argsort(subspace_indices)[np.sort(subspace_indices) == block]]", ["C14", "C05", "C01"], "after seed C05-r5")
 v("ok-bd-index-checked-annotated", B, "    index_checked = set()\n", "    index_checked: set[tuple[int, ...]] = set()\n", [])
 v("ok-bd-last-block-named", B, "        if H.shape[0] - 1 in fully_diagonalize:\n", "        last_block = H.shape[0] - 1\n        if last_block in fully_diagonalize:\n", [])
 v("bd-last-block-off-by-one", B, "        if H.shape[0] - 1 in fully_diagonalize:\n", "        last_block = H.shape[0]\n        if last_block in fully_diagonalize:\n", ["C20"])
@@ -248,6 +249,8 @@ v("nof-adjoint-coefficient-flips-only-i", N, "(tuple(-power for power in powers)
 v("nof-number-power-ladder-idempotent", N, 'and self.args[1].name not in ("BosonOp", "LadderOp")', 'and self.args[1].name not in ("BosonOp",)', ["C08", "C07"], "seed C08-r4")
 v("nof-number-power-zero-exponent", N, "            exp.is_integer\n            and exp != 0\n            and self.args[1].name", "            exp.is_integer\n            and self.args[1].name", ["C08", "C07"])
 v("ok-nof-number-power-positive-list", N, 'and self.args[1].name not in ("BosonOp", "LadderOp")', 'and self.args[1].name in ("FermionOp", "SigmaOpBase")', [])
+v("nof-find-operators-other-sort-key", N, "            operators, key=lambda op: (generator_types.index(type(op)), str(op.name))\n", "            operators, key=lambda op: (generator_types.index(type(op)), len(str(op.name)), str(op.name))\n", ["C08", "C07"], "after seed C08-r5")
+v("ok-nof-sort-key-parameter-renamed", N, "            operators, key=lambda op: (generator_types.index(type(op)), str(op.name))\n", "            operators, key=lambda o: (generator_types.index(type(o)), str(o.name))\n", [])
 v("nof-expr-shift-on-creation", N, "                    if power > 0:\n                        # a * n_a = n_a + 1\n                        replacements[n_i] = n_i + power", "                    if power < 0:\n                        # a * n_a = n_a + 1\n                        replacements[n_i] = n_i + power", ["C08", "C07"])
 v("nof-phases-reordered", N, "            # Now multiply by the number part\n            partial = partial._multiply_expr(coeff)\n", "", ["C08", "C07"])
 v("ok-nof-reversed-tuple", N, "for i, power in reversed(list(enumerate(powers))):", "for i, power in reversed(tuple(enumerate(powers))):", [])
